@@ -1,4 +1,4 @@
-from decimal import Decimal, ROUND_HALF_UP
+from decimal import Decimal, ROUND_HALF_UP, localcontext
 from .exceptions import DeviceError
 
 
@@ -146,7 +146,12 @@ class PrintUsingFormatter:
         # round the exact value to the number of decimal positions
         exact = Decimal(value)
         quantum = Decimal(1).scaleb(-(decimals or 0))
-        rounded = abs(exact).quantize(quantum, rounding=ROUND_HALF_UP)
+        with localcontext() as ctx:
+            # enough digits for the largest DOUBLE (309 digits before
+            # the decimal point) and the field's decimals
+            ctx.prec = 320 + (decimals or 0)
+            rounded = abs(exact).quantize(
+                quantum, rounding=ROUND_HALF_UP)
         negative = exact < 0 and rounded != 0
 
         digits = f'{rounded:f}'
